@@ -70,7 +70,7 @@ def build(o):
     if k == 'S':
         return IPSet([IPNetwork((v, p), version=ver) for ver, v, p in o[1]])
     if k == 'E':
-        return EUI(o[2], version=o[1], dialect=getattr(netaddr, DIALECTS[o[3]]))
+        return common.make_eui(o[2], o[1], getattr(netaddr, DIALECTS[o[3]]))
     raise ValueError(o)
 
 
